@@ -255,6 +255,8 @@ class map_impl {
     std::ofstream os(rank_fname, std::ios::binary);
     cereal::JSONOutputArchive oarchive(os);
     oarchive(m_local_map, m_default_value, m_comm.size());
+    // No rank may return (and insert again) before every rank has written
+    m_comm.cf_barrier();
   }
 
   void deserialize(const std::string &fname) {
